@@ -14,7 +14,95 @@ import CV.Calc
 import CV.CallGraph
 import CV.CSemParse
 import CV.GenFlat
+import CV.GenStruct
 namespace CV
+
+
+/-! tokens of a structured program (C01 stage 2): prefix notation
+    stmt := asg:.. | bin:.. | oas:.. | inc:v | dec:v | skip | { stmt* } | if cond stmt | ife cond stmt stmt
+          | wh cond stmt | do stmt cond | for flat cond flat stmt
+    cond := cmp:<eq|ne|lt|ge|gt|le>:<atom>:<atom> | t:<v> | nt:<v>          atom = c<n> | v<name> -/
+namespace GSParse
+open GenFlat GenStruct
+
+def atom (t : String) : Option Atom :=
+  if t.startsWith "c" then ((t.drop 1).toString.toNat?).bind fun n => if n < 256 then some (Atom.const (BitVec.ofNat 8 n)) else none
+  else if t.startsWith "v" then some (Atom.var (t.drop 1).toString) else none
+
+def bop (t : String) : Option BOp :=
+  if t == "add" then some .add else if t == "sub" then some .sub else if t == "and" then some .band
+  else if t == "or" then some .bor else if t == "xor" then some .bxor else none
+
+def cop (t : String) : Option COp :=
+  if t == "eq" then some .eq else if t == "ne" then some .ne else if t == "lt" then some .lt
+  else if t == "ge" then some .ge else if t == "gt" then some .gt else if t == "le" then some .le else none
+
+def flat (t : String) : Option FStmt :=
+  match t.splitOn ":" with
+  | ["asg", v, a] => (atom a).map fun a => FStmt.asg v a
+  | ["bin", v, o, a, b] => do let o ← bop o; let a ← atom a; let b ← atom b; some (FStmt.bin v o a b)
+  | ["oas", v, o, a] => do let o ← bop o; let a ← atom a; some (FStmt.opasg v o a)
+  | ["inc", v] => some (FStmt.inc v)
+  | ["dec", v] => some (FStmt.dec v)
+  | _ => none
+
+def cond (t : String) : Option Cond :=
+  match t.splitOn ":" with
+  | ["cmp", o, a, b] => do let o ← cop o; let a ← atom a; let b ← atom b; some (Cond.cmp o a b)
+  | ["t", v] => some (Cond.truth v)
+  | ["nt", v] => some (Cond.nottruth v)
+  | _ => none
+
+mutual
+def stmt : Nat → List String → Option (SStmt × List String)
+  | 0, _ => none
+  | _, [] => none
+  | f + 1, t :: r =>
+    if t == "skip" then some (.skip, r)
+    else if t == "{" then block f r
+    else if t == "if" then
+      match r with
+      | c :: r1 => do let c ← cond c; let (b, r2) ← stmt f r1; some (.ifThen c b, r2)
+      | _ => none
+    else if t == "ife" then
+      match r with
+      | c :: r1 => do let c ← cond c; let (b, r2) ← stmt f r1; let (e, r3) ← stmt f r2; some (.ifElse c b e, r3)
+      | _ => none
+    else if t == "wh" then
+      match r with
+      | c :: r1 => do let c ← cond c; let (b, r2) ← stmt f r1; some (.while c b, r2)
+      | _ => none
+    else if t == "do" then do
+      let (b, r1) ← stmt f r
+      match r1 with
+      | c :: r2 => do let c ← cond c; some (.doWhile b c, r2)
+      | _ => none
+    else if t == "for" then
+      match r with
+      | i :: c :: u :: r1 => do
+        let i ← flat i; let c ← cond c; let u ← flat u
+        let (b, r2) ← stmt f r1
+        some (.for i c u b, r2)
+      | _ => none
+    else (flat t).map fun s => (.flat s, r)
+def block : Nat → List String → Option (SStmt × List String)
+  | 0, _ => none
+  | _, [] => none
+  | f + 1, t :: r =>
+    if t == "}" then some (.skip, r)
+    else do
+      let (a, r1) ← stmt f (t :: r)
+      let (b, r2) ← block f r1
+      some ((match b with | .skip => a | b => .seq a b), r2)
+end
+
+/-- a whole function body: statements up to the end of the tokens -/
+def program (toks : List String) : Option SStmt :=
+  match block (2 * toks.length + 4) (toks ++ ["}"]) with
+  | some (s, []) => some s
+  | _ => none
+
+end GSParse
 
 structure LoadedProg where
   env : Env := []
@@ -322,6 +410,30 @@ def handle (st : DState) (line : String) : DState × String :=
         (st, "ok " ++ " ".intercalate ((ps.flatMap GenFlat.genText).map fun p => p.1.name ++ ":" ++ hexStr p.2))
       else (st, "outside")
     | none => (st, "badreq")
+  -- genstruct <tokens> : the stage-2 generator port on a structured program; instruction and label lines
+  | "genstruct" :: toks =>
+    match GSParse.program toks with
+    | some p =>
+      if GenStruct.SInFragment p then
+        (st, "ok " ++ " ".intercalate ((GenStruct.gen {} p).1.map GenStruct.GLine.text))
+      else (st, "outside")
+    | none => (st, "badreq")
+  -- semstruct <fuel> / name=val ... / <tokens> : final values of the named variables (layout: name i at address $80+i)
+  | "semstruct" :: fuel :: "/" :: rest =>
+    let vars := rest.takeWhile (· != "/")
+    let toks := (rest.dropWhile (· != "/")).drop 1
+    let kv := vars.filterMap fun t => match t.splitOn "=" with
+      | [k, v] => v.toNat?.map fun n => (k, n)
+      | _ => none
+    let names := kv.map (·.1)
+    let L : GenFlat.Layout := fun x => BitVec.ofNat 16 (0x80 + (names.idxOf x))
+    let m0 := kv.foldl (fun (m : Mem) p => m.write (L p.1) (BitVec.ofNat 8 p.2)) Mem.zero
+    match GSParse.program toks, fuel.toNat? with
+    | some p, some f =>
+      (match GenStruct.sem L f m0 p with
+       | some m => (st, "ok " ++ " ".intercalate (names.map fun x => x ++ "=" ++ toString (m.read (L x)).toNat))
+       | none => (st, "fuel"))
+    | _, _ => (st, "badreq")
   -- branch <line tokens>
   | "branch" :: toks =>
     match codeOfTokens toks with
